@@ -30,10 +30,90 @@ RULE = ("close causes {force_disconnect, disconnect, cancel, reuse probe, EOF, R
         "distinct = distinct trace signature (state sequence, fatal classes, call outcomes, on_stop args, fault kind x stage x position class)")
 
 
+ORDER = {"INITIALIZED": 0, "SOCKET_OPENED": 1, "HANDSHAKE_COMPLETE": 2, "CONNECTED": 3, "CLOSED": 9}
+
+
+def second_attempt_while_first_in_flight(ctx: Ctx) -> None:
+    """"A connection object can be used for one connect attempt only" - also while that attempt is still running: a second start_connection() /
+    finish_connection() on the same object, entered at every loop step between the first call's entry and its return (the visible state has not
+    moved yet), is refused like any other reuse; the first attempt is not disturbed, no second socket or transport appears, the state sequence
+    stays monotone."""
+    import base64
+
+    from vf.sim.device import DeviceConfig
+    from vf.sim.scenario import Sim  # noqa: PLC0415
+
+    res = ctx.res
+    psk = bytes(range(5, 37))
+    idx = 0
+    for framing in ("plain", "noise"):
+        for phase in ("start_connection", "finish_connection"):
+            for eager in (False, True):
+                for k in range(0, 14):
+                    idx += 1
+                    if not ctx.mine(idx):
+                        continue
+                    with Sim() as sim:
+                        cfg = DeviceConfig(noise_psk=psk if framing == "noise" else None)
+                        cfg.hello_name = cfg.name
+                        sim.device(cfg)
+                        cli = sim.client(**({"noise_psk": base64.b64encode(psk).decode()} if framing == "noise" else {}))
+                        c0 = sim.call("start", lambda: cli.start_connection())
+                        sim.small_step()
+                        conn = cli._connection  # noqa: SLF001
+                        if conn is None:
+                            res.inconclusive.append("second attempt: no connection object after the first step of start_connection()")
+                            continue
+                        view = sim.view(conn)
+                        first = c0
+                        if phase == "finish_connection":
+                            sim.run(until=lambda: c0.done, max_time=sim.clock + 50)
+                            if c0.outcome != "ok":
+                                res.inconclusive.append(f"second attempt: start failed {c0.exc!r}")
+                                continue
+                            first = sim.call("finish", lambda: cli.finish_connection(login=False))
+                            sim.small_step()
+                        steps = 0
+                        while steps < k and not first.done:
+                            sim.small_step()
+                            steps += 1
+                        if first.done:
+                            continue     # the first attempt is over: what follows is the sequential reuse the sweep's probes already cover
+                        state_at_entry = conn.connection_state.name
+                        sockets_before = len(sim.open_sockets())
+                        transports_before = len(sim.transports)
+                        second = sim.call("second:" + phase, (lambda: conn.start_connection()) if phase == "start_connection" else (lambda: conn.finish_connection(login=False)),
+                                          eager=eager)
+                        sim.run(until=lambda: first.done and second.done, max_time=sim.clock + 100)
+                        sim.run_for(0.05)
+                        res.evaluations += 1
+                        res.count("workload/second-attempt-while-first-in-flight")
+                        res.count(f"second-attempt/{phase}/entered-in-state={state_at_entry}/after-steps={steps}")
+                        res.sig("second-attempt", framing, phase, eager, steps, state_at_entry)
+                        case = {"spec": None, "second_attempt": {"framing": framing, "phase": phase, "loop_steps_after_first_entry": steps, "eager": eager,
+                                                                  "state_at_entry": state_at_entry}}
+                        who = f"{framing}: second {phase}() entered {steps} loop steps after the first (state {state_at_entry})"
+                        if not (second.done and second.outcome == "raised" and isinstance(second.exc, RuntimeError)):
+                            res.violation(f"C05/second-concurrent-attempt-accepted/{phase}", f"{who} ended {second.outcome} {second.exc!r}: the object took a second attempt "
+                                          f"(sockets open now {len(sim.open_sockets())}, were {sockets_before}; transports created {len(sim.transports)}, were {transports_before})",
+                                          case, trace=sim.trace(40))
+                        if not first.done or first.outcome != "ok":
+                            res.violation(f"C05/first-attempt-disturbed/{phase}", f"{who}: the first call ended {first.outcome} {first.exc!r}", case, trace=sim.trace(40))
+                        seq = [s_[3].name for s_ in view.states]
+                        bad = [(a, b) for a, b in zip(seq, seq[1:]) if ORDER[b] <= ORDER[a]]
+                        if bad:
+                            res.violation(f"C05/transition/{bad[0][0]}->{bad[0][1]}", f"{who}: state sequence {seq}", case, trace=sim.trace(40))
+                        if len(sim.open_sockets()) > 1:
+                            res.violation("C05/second-socket", f"{who}: {len(sim.open_sockets())} sockets open for one connection object", case, trace=sim.trace(40))
+                        d = sim.call("bye", lambda: cli.disconnect(force=True))
+                        sim.run(until=lambda: d.done, max_time=sim.clock + 5)
+
+
 def shard(ctx: Ctx) -> None:
     from vf.sim import device as _device_fw  # noqa: PLC0415
 
     _device_fw.ROTATE_FIRMWARE = True    # the firmware flavour of default devices rotates (hello without a name, API 1.2 / 1.8 / 1.12, deep sleep)
+    second_attempt_while_first_in_flight(ctx)
     sweep.standard_sweep(ctx, PROP)
     sweep.connect_fault_sweep(ctx, PROP)   # resolver / TCP / setsockopt / rejection worlds: a failed phase must leave the object CLOSED
     sweep.same_turn_pairs_sweep(ctx, PROP)
